@@ -20,7 +20,7 @@ import warnings
 
 import numpy as np
 
-from holopy.core.metadata import make_subset_data
+from holopy.core.metadata import make_subset_data, dict_to_array
 from holopy.core.utils import ensure_array, ensure_listlike, ensure_scalar
 from holopy.core.holopy_object import HoloPyObject
 from holopy.core.errors import raise_fitting_api_error
@@ -256,6 +256,9 @@ class Model(HoloPyObject):
             val = schema.noise_sd
         else:
             raise MissingParameter('noise_sd')
+        if isinstance(val, dict):
+            # per-channel noise given to the model as {channel: value}
+            val = dict_to_array(schema, val)
         if val is None:
             if np.all([isinstance(par, prior.Uniform)
                        for par in self._parameters]):
